@@ -62,6 +62,24 @@ def classify(fn, bb):
                     target = g[1] if len(g) > 1 else ""
                     if UNORDERED_TARGET.search(target):
                         return "neutral", "collected into %s" % target.split("<")[0].split("::")[-1]
+                    # collected into a sequence that is sorted before anything else uses it
+                    du = mir.DefUse(fn)
+                    dl = tt["dest"]["l"]
+                    roots = {dl}
+                    for _ in range(3):
+                        for bj, b2 in enumerate(blocks):
+                            for s2 in b2["s"]:
+                                if s2["rv"]["k"] == "use" and (mir.op_place(s2["rv"]["op"]) or {}).get("l") in roots and not s2["lhs"]["p"]:
+                                    roots.add(s2["lhs"]["l"])
+                    for bj, b2 in enumerate(blocks):
+                        t2 = b2["t"]
+                        if b2["cleanup"] or t2["k"] != "call":
+                            continue
+                        c2 = t2.get("callee") or ""
+                        if re.search(r"::(sort|sort_by|sort_by_key|sort_unstable|sort_unstable_by|sort_unstable_by_key)$", c2) and cfg.dominates(bi, bj):
+                            for o in mir.provenance(fn, du, t2["args"][0], transparent_extra=("std::ops::DerefMut::deref_mut",)):
+                                if o.kind in ("local", "call") and (o.local in roots or (o.kind == "call" and o.bb == bi)):
+                                    return "neutral", "collected into a Vec that is sorted right after"
                     return "ordered", "collected into %s" % (target[:60] or "a sequence")
                 if name in ("all", "any", "count", "sum", "min", "max", "min_by_key", "max_by_key", "fold_neutral"):
                     return "neutral", "consumed by %s()" % name
